@@ -13,10 +13,13 @@ META = dict(
                "in the Core ranges - for the code AFTER the repair fix/C22-connect-timing-ranges (the unrepaired tree violates it: exit 1 with the "
                "connect request as replay) - and the converse: every valid request addressed to us is accepted (C22_valid_request_connects). The "
                "specification monitor accepts every model trace of any length inside the executable environment env22 = any connect requests, "
-               "events that are empty or (without encryption support) carry control PDUs without instant other than LL_TERMINATE_IND, any pattern of "
-               "missed events, own accuracy <= 500 ppm, nothing left in the receive queue (C22_monitor_accepts_partial, simulation proof "
-               "coq/LL/LLProofsC22Sim.v). Not proved: the monitor statement for traces with LL_CONNECTION_UPDATE_IND / channel map / PHY update / "
-               "terminate / data PDUs inside the events and with API calls (C22_monitor_accepts_all_full stays a Definition; tested every run). "
+               "events that are empty or (without encryption support) carry control PDUs without instant other than LL_TERMINATE_IND or one "
+               "LL_CONNECTION_UPDATE_IND - deferred, waiting through events and missed events, applied at its instant with the transmit window "
+               "covered and the new interval, consumed by the monitor's applied_update, further updates following -, any pattern of missed "
+               "events, own accuracy <= 500 ppm, nothing left in the receive queue (C22_monitor_accepts_partial, C22_event_at_the_instant; "
+               "simulation proof coq/LL/LLProofsC22Sim.v). Not proved: the monitor statement for a refused update / an update invalid at its "
+               "instant (link dropped), an instant on a missed event, PDUs delivered while an update waits, channel map / PHY update / terminate / "
+               "data PDUs, encryption support, API calls (C22_monitor_accepts_all_full stays a Definition; tested every run). "
                "What the radio does with the "
                "window (HFXO start-up, timer resolution) is outside.",
     design_ref="DESIGN.md section 6 C22, docs/C22.md, docs/LL_MODEL.md",
